@@ -880,6 +880,10 @@ func (p *Prog) involvesNovelty(f *ssa.Function) bool {
 		why = "function " + short(f.String())
 	}
 	fns := withClosures(f)
+	if root != f {
+		// a function literal works on what the function around it prepared (captured variables): novelty there counts
+		fns = append(fns, root)
+	}
 	for _, g := range fns {
 		if why != "" {
 			break
